@@ -1137,10 +1137,42 @@ theorem nocr_joinRaw (ls : List Line) (h : ∀ l ∈ ls, l.canon) : (joinRaw ls)
 
 /-! ## Layer 2: block presentations -/
 
+/-- A compact block collection (its first entry continues the parent's `- ` line). -/
+def PNode.isCompact : PNode → Bool
+  | .seq false _ c _ => c
+  | .map false _ c _ => c
+  | _ => false
+
+/-- The trailing comment of an entry: printable, and none on the line of a compact collection. -/
+def trailOk2 (m : Meta) (x : PNode) : Bool :=
+  match m.trail with
+  | none => true
+  | some c => commentOk c && !x.isCompact
+
+theorem trail_facts (m : Meta) (x : PNode) (h : trailOk2 m x = true) :
+    TrailOk (trailText m.trail) ∧ (trailText m.trail).all okc = true ∧ (x.isCompact = true → m.trail = none) := by
+  refine ⟨trailOk_trailText _, ?_, ?_⟩
+  · cases ht : m.trail with
+    | none => rfl
+    | some c =>
+      simp only [trailOk2, ht, Bool.and_eq_true] at h
+      simp only [trailText, List.all_cons]
+      have := okc_of_printable c h.1
+      simp [this, okc]
+  · intro hc
+    cases ht : m.trail with
+    | none => rfl
+    | some c => simp [trailOk2, ht, hc] at h
+
+theorem restShape_trail (T : Str) (h : TrailOk T) : T = [] ∨ T.head? = some ' ' := by
+  rcases h with rfl | ⟨c, rfl⟩
+  · exact Or.inl rfl
+  · exact Or.inr rfl
+
 mutual
-/-- A value of layer 2 in context `ctx` (`m` = its entry's meta): scalars without block styles, flow
-collections, block collections — nested with steps, compact after `- ` —, no anchors / aliases, no
-filler lines, no trailing comments. -/
+/-- A value of layers 2–4 in context `ctx` (`m` = its entry's meta): scalars, block scalars below the
+root, flow collections, block collections — nested with steps, compact after `- ` —, trailing comments
+on entries; no anchors / aliases, no filler lines. -/
 def PNode.bl2 (ctx : Ctx) : PNode → Bool
   | .seq false st c items =>
     !items.isNil && items.bl2 &&
@@ -1155,10 +1187,10 @@ def PNode.bl2 (ctx : Ctx) : PNode → Bool
   | x => x.sc2 false
 def PItems.bl2 : PItems → Bool
   | .nil => true
-  | .cons m x r => m.fill.isEmpty && m.trail.isNone && x.bl2 .seq && r.bl2
+  | .cons m x r => m.fill.isEmpty && trailOk2 m x && x.bl2 .seq && r.bl2
 def PEntries.bl2 : PEntries → Bool
   | .nil => true
-  | .cons m k ks x r => m.fill.isEmpty && m.trail.isNone && keyOk false k ks && x.bl2 .map && r.bl2
+  | .cons m k ks x r => m.fill.isEmpty && trailOk2 m x && keyOk false k ks && x.bl2 .map && r.bl2
 end
 
 
@@ -1170,41 +1202,40 @@ def PNode.isInline2 : PNode → Bool
   | .str _ (.folded _ _ _ _) => false
   | _ => true
 
-/-- `valueR` of an inline value without trailing comment. -/
-theorem valueR_inline (x : PNode) (ctx : Ctx) (h : x.bl2 ctx = true) (hi : x.isInline2 = true) (e col : Nat) (m : Meta)
-    (ht : m.trail = none) :
-    x.valueR ctx e col m = ((if x.flow = [] then [] else spaces (m.gap + 1) ++ x.flow), []) := by
+/-- `valueR` of an inline value. -/
+theorem valueR_inline (x : PNode) (ctx : Ctx) (h : x.bl2 ctx = true) (hi : x.isInline2 = true) (e col : Nat) (m : Meta) :
+    x.valueR ctx e col m = ((if x.flow = [] then [] else spaces (m.gap + 1) ++ x.flow) ++ trailText m.trail, []) := by
   cases x with
   | null v =>
     by_cases h4 : v % 5 = 4
-    · simp [PNode.valueR, PNode.flow, nullText, h4, ht, trailText]
+    · simp [PNode.valueR, PNode.flow, nullText, h4]
     · have hne : nullText v ≠ [] := by
         have := tokOk_nullText v h4; exact this.2.1
-      simp [PNode.valueR, PNode.flow, h4, ht, trailText, hne]
+      simp [PNode.valueR, PNode.flow, h4, hne]
   | bool b v =>
     have hne : boolText b v ≠ [] := (tokOk_boolText b v).2.1
-    simp [PNode.valueR, PNode.flow, ht, trailText, hne]
+    simp [PNode.valueR, PNode.flow, hne]
   | int i v =>
     have hne : intText i v ≠ [] := (intText_facts i v).1.2.1
-    simp [PNode.valueR, PNode.flow, ht, trailText, hne]
+    simp [PNode.valueR, PNode.flow, hne]
   | str s st =>
     cases st with
     | plain =>
       have hs : plainSafe false s = true := by simp [PNode.bl2, PNode.sc2] at h; exact h.1
       have hne : s ≠ [] := by
         intro e; subst e; simp [plainSafe, plainFirstOk] at hs
-      simp [PNode.valueR, PNode.flow, strFlowText, ht, trailText, hne]
-    | single => simp [PNode.valueR, PNode.flow, strFlowText, sqText, ht, trailText]
-    | double sh eu => simp [PNode.valueR, PNode.flow, strFlowText, dqText, ht, trailText]
+      simp [PNode.valueR, PNode.flow, strFlowText, hne]
+    | single => simp [PNode.valueR, PNode.flow, strFlowText, sqText]
+    | double sh eu => simp [PNode.valueR, PNode.flow, strFlowText, dqText]
     | literal ch ind ex => simp [PNode.isInline2] at hi
     | folded ch ind ex fo => simp [PNode.isInline2] at hi
   | seq fl st c items =>
     cases fl with
-    | true => simp [PNode.valueR, PNode.flow, ht, trailText]
+    | true => simp [PNode.valueR, PNode.flow]
     | false => simp [PNode.isInline2] at hi
   | map fl st c es =>
     cases fl with
-    | true => simp [PNode.valueR, PNode.flow, ht, trailText]
+    | true => simp [PNode.valueR, PNode.flow]
     | false => simp [PNode.isInline2] at hi
   | anchored a n => simp [PNode.bl2, PNode.sc2] at h
   | alias a t => simp [PNode.bl2, PNode.sc2] at h
@@ -1281,24 +1312,26 @@ end
 mutual
 /-- Rendered lines of layer-2 values are canonical; the rest of the indicator line is empty or starts
 with a space and contains no line break. -/
-theorem canon_value : (x : PNode) → ∀ ctx, x.bl2 ctx = true → ∀ (e col : Nat) (m : Meta), m.trail = none →
+theorem canon_value : (x : PNode) → ∀ ctx, x.bl2 ctx = true → ∀ (e col : Nat) (m : Meta), trailOk2 m x = true →
     RestShape (x.valueR ctx e col m).1 ∧ (x.valueR ctx e col m).1.all okc = true ∧ ∀ l ∈ (x.valueR ctx e col m).2, l.canon
   | .seq fl st c items, ctx, h, e, col, m, ht => by
+    obtain ⟨hT, hTok, hTc⟩ := trail_facts m _ ht
     cases fl with
     | true =>
-      rw [valueR_inline _ ctx h rfl e col m ht]
+      rw [valueR_inline _ ctx h rfl e col m]
       have hne : (PNode.seq true st c items).flow ≠ [] := by simp [PNode.flow]
       simp only [hne, if_false]
       refine ⟨Or.inr (by simp [spaces, List.replicate_succ]), ?_, by simp⟩
-      simp only [List.all_append, okc_spaces, okc_inline2 _ ctx h rfl, Bool.and_self]
+      simp only [List.all_append, okc_spaces, okc_inline2 _ ctx h rfl, hTok, Bool.and_self]
     | false =>
       simp only [PNode.bl2, Bool.and_eq_true, Bool.not_eq_true'] at h
       have hi := h.1.2
       cases c with
       | false =>
-        simp only [PNode.valueR, Bool.false_eq_true, if_false, ht, trailText]
-        exact ⟨Or.inl rfl, rfl, canon_items items hi _⟩
+        simp only [PNode.valueR, Bool.false_eq_true, if_false]
+        exact ⟨restShape_trail _ hT, hTok, canon_items items hi _⟩
       | true =>
+        have ht0 : m.trail = none := hTc rfl
         cases items with
         | nil => simp [PItems.isNil] at h
         | cons m' x r =>
@@ -1310,20 +1343,21 @@ theorem canon_value : (x : PNode) → ∀ ctx, x.bl2 ctx = true → ∀ (e col :
           simp only [List.all_append, okc_spaces, Bool.true_and]
           exact h0.2
   | .map fl st c es, ctx, h, e, col, m, ht => by
+    obtain ⟨hT, hTok, hTc⟩ := trail_facts m _ ht
     cases fl with
     | true =>
-      rw [valueR_inline _ ctx h rfl e col m ht]
+      rw [valueR_inline _ ctx h rfl e col m]
       have hne : (PNode.map true st c es).flow ≠ [] := by simp [PNode.flow]
       simp only [hne, if_false]
       refine ⟨Or.inr (by simp [spaces, List.replicate_succ]), ?_, by simp⟩
-      simp only [List.all_append, okc_spaces, okc_inline2 _ ctx h rfl, Bool.and_self]
+      simp only [List.all_append, okc_spaces, okc_inline2 _ ctx h rfl, hTok, Bool.and_self]
     | false =>
       simp only [PNode.bl2, Bool.and_eq_true, Bool.not_eq_true'] at h
       have hi := h.1.2
       cases c with
       | false =>
-        simp only [PNode.valueR, Bool.false_eq_true, if_false, ht, trailText]
-        exact ⟨Or.inl rfl, rfl, canon_entries es hi _⟩
+        simp only [PNode.valueR, Bool.false_eq_true, if_false]
+        exact ⟨restShape_trail _ hT, hTok, canon_entries es hi _⟩
       | true =>
         cases es with
         | nil => simp [PEntries.isNil] at h
@@ -1338,33 +1372,37 @@ theorem canon_value : (x : PNode) → ∀ ctx, x.bl2 ctx = true → ∀ (e col :
           simp only [okc_spaces, Bool.true_and]
           exact h02
   | .null v, ctx, h, e, col, m, ht => by
-    rw [valueR_inline _ ctx h rfl e col m ht]
+    obtain ⟨hT, hTok, -⟩ := trail_facts m _ ht
+    rw [valueR_inline _ ctx h rfl e col m]
     have hok := okc_inline2 _ ctx h rfl
     split
-    · exact ⟨Or.inl rfl, rfl, by simp⟩
-    · exact ⟨Or.inr (by simp [spaces, List.replicate_succ]), by simp only [List.all_append, okc_spaces, hok, Bool.and_self], by simp⟩
+    · exact ⟨by simp only [List.nil_append]; exact restShape_trail _ hT, by simpa using hTok, by simp⟩
+    · exact ⟨Or.inr (by simp [spaces, List.replicate_succ]), by simp only [List.all_append, okc_spaces, hok, hTok, Bool.and_self], by simp⟩
   | .bool b v, ctx, h, e, col, m, ht => by
-    rw [valueR_inline _ ctx h rfl e col m ht]
+    obtain ⟨hT, hTok, -⟩ := trail_facts m _ ht
+    rw [valueR_inline _ ctx h rfl e col m]
     have hok := okc_inline2 _ ctx h rfl
     split
-    · exact ⟨Or.inl rfl, rfl, by simp⟩
-    · exact ⟨Or.inr (by simp [spaces, List.replicate_succ]), by simp only [List.all_append, okc_spaces, hok, Bool.and_self], by simp⟩
+    · exact ⟨by simp only [List.nil_append]; exact restShape_trail _ hT, by simpa using hTok, by simp⟩
+    · exact ⟨Or.inr (by simp [spaces, List.replicate_succ]), by simp only [List.all_append, okc_spaces, hok, hTok, Bool.and_self], by simp⟩
   | .int i v, ctx, h, e, col, m, ht => by
-    rw [valueR_inline _ ctx h rfl e col m ht]
+    obtain ⟨hT, hTok, -⟩ := trail_facts m _ ht
+    rw [valueR_inline _ ctx h rfl e col m]
     have hok := okc_inline2 _ ctx h rfl
     split
-    · exact ⟨Or.inl rfl, rfl, by simp⟩
-    · exact ⟨Or.inr (by simp [spaces, List.replicate_succ]), by simp only [List.all_append, okc_spaces, hok, Bool.and_self], by simp⟩
+    · exact ⟨by simp only [List.nil_append]; exact restShape_trail _ hT, by simpa using hTok, by simp⟩
+    · exact ⟨Or.inr (by simp [spaces, List.replicate_succ]), by simp only [List.all_append, okc_spaces, hok, hTok, Bool.and_self], by simp⟩
   | .str s st, ctx, h, e, col, m, ht => by
+    obtain ⟨hT, hTok, -⟩ := trail_facts m _ ht
     cases st
     case literal ch ind ex =>
       simp only [PNode.bl2, Bool.and_eq_true] at h
       have hs := h.2
       simp only [strOk, Bool.not_false, Bool.true_and, Bool.and_eq_true, decide_eq_true_eq] at hs
       obtain ⟨⟨⟨⟨⟨hind, h9⟩, hlines⟩, hch⟩, hex⟩, hroot⟩ := hs
-      simp only [PNode.valueR, ht, trailText, List.append_nil]
+      simp only [PNode.valueR]
       refine ⟨Or.inr (by simp [spaces, List.replicate_succ]), ?_, ?_⟩
-      · rw [List.all_append, okc_spaces, Bool.true_and]
+      · rw [List.all_append, List.all_append, okc_spaces, Bool.true_and, hTok, Bool.and_true]
         exact hdr_okc '|' (by decide) ex ind ch h9
       · intro l hl
         exact bsLines_canon _ _ (body_lines_printable ch s hlines hch) l hl
@@ -1374,18 +1412,18 @@ theorem canon_value : (x : PNode) → ∀ ctx, x.bl2 ctx = true → ∀ (e col :
       simp only [strOk, Bool.not_false, Bool.true_and, Bool.and_eq_true, decide_eq_true_eq, Bool.false_eq_true, if_false,
         bne_iff_ne, ne_eq] at hs
       obtain ⟨⟨⟨⟨⟨⟨⟨⟨⟨hind, h9⟩, hlines⟩, hch⟩, hex⟩, hroot⟩, hsp⟩, hhead⟩, hf⟩, _⟩ := hs
-      simp only [PNode.valueR, ht, trailText, List.append_nil]
+      simp only [PNode.valueR]
       refine ⟨Or.inr (by simp [spaces, List.replicate_succ]), ?_, ?_⟩
-      · rw [List.all_append, okc_spaces, Bool.true_and]
+      · rw [List.all_append, List.all_append, okc_spaces, Bool.true_and, hTok, Bool.and_true]
         exact hdr_okc '>' (by decide) ex ind ch h9
       · intro l hl
         exact bsLines_canon _ _ (fun l hl => (folded_lines_ok fo ch s hch hlines hsp hhead hf l hl).2) l hl
     all_goals (
-      rw [valueR_inline _ ctx h rfl e col m ht]
+      rw [valueR_inline _ ctx h rfl e col m]
       have hok := okc_inline2 _ ctx h rfl
       split
-      · exact ⟨Or.inl rfl, rfl, by simp⟩
-      · exact ⟨Or.inr (by simp [spaces, List.replicate_succ]), by simp only [List.all_append, okc_spaces, hok, Bool.and_self], by simp⟩)
+      · exact ⟨by simp only [List.nil_append]; exact restShape_trail _ hT, by simpa using hTok, by simp⟩
+      · exact ⟨Or.inr (by simp [spaces, List.replicate_succ]), by simp only [List.all_append, okc_spaces, hok, hTok, Bool.and_self], by simp⟩)
   | .anchored a n, ctx, h, _, _, _, _ => by simp [PNode.bl2, PNode.sc2] at h
   | .alias a t, ctx, h, _, _, _, _ => by simp [PNode.bl2, PNode.sc2] at h
 theorem canon_items : (items : PItems) → items.bl2 = true → ∀ n, ∀ l ∈ items.linesR n, l.canon
@@ -1690,19 +1728,6 @@ theorem inline_sq (s : Str) (hs : s.all isPrintable = true) : Inline2 (sqText s)
     simp [dropSpaces]
   · simp only [sqText_eq, parseInline, h, restOk_nil, if_true]
 
-
-/-- The text of a trailing comment (or nothing). -/
-def TrailOk (T : Str) : Prop := T = [] ∨ ∃ c, T = ' ' :: '#' :: c
-
-theorem trailOk_trailText (t : Option Str) : TrailOk (trailText t) := by
-  cases t with
-  | none => exact Or.inl rfl
-  | some c => exact Or.inr ⟨c, rfl⟩
-
-theorem restOk_trail (T : Str) (h : TrailOk T) : restOk T = true := by
-  rcases h with rfl | ⟨c, rfl⟩
-  · rfl
-  · simp [restOk, isBlankOrComment, dropSpaces, List.dropWhile_cons]
 
 theorem stop_trail (flow : Bool) (T : Str) (h : TrailOk T) : Stop flow T := by
   rcases h with rfl | ⟨c, rfl⟩
@@ -2142,14 +2167,27 @@ theorem bound_to_map (ctx : Ctx) (e k : Nat) (rest : List Line) (h : Bound ctx e
     · cases hk
     · exact ⟨h2, by omega⟩
 
-/-- An empty value (`key:` / `-` with nothing after it and a following line that is not deeper). -/
-theorem parseAfter_empty (f col : Nat) (ctx : Ctx) (e : Nat) (rest : List Line) (hb : Bound ctx e rest) :
-    Parsed (parseAfter (f + 2) [] col (pnOf ctx e) (ctx == .seq) (ctx == .map) rest) (.scalar true []) rest := by
-  rw [parseAfter]
-  simp only [List.takeWhile_nil, List.length_nil, dropSpaces, List.dropWhile_nil, List.head?_nil, List.isEmpty_nil,
-    Bool.true_or, if_true]
-  have hnone : ((none : Option Char) == some '\t') = false := rfl
-  simp only [hnone, Bool.false_eq_true, if_false]
+/-- Nothing but (possibly) a comment after the indicator: the node is on the following lines. -/
+theorem parseAfter_trail (f col pn : Nat) (cOk sSame : Bool) (T : Str) (hT : TrailOk T) (ls : List Line) :
+    parseAfter (f + 1) T col pn cOk sSame ls = parseBlock f pn sSame ls := by
+  rcases hT with rfl | ⟨c, rfl⟩
+  · rw [parseAfter]
+    simp only [List.takeWhile_nil, List.length_nil, dropSpaces, List.dropWhile_nil, List.head?_nil, List.isEmpty_nil,
+      Bool.true_or, if_true]
+    have hnone : ((none : Option Char) == some '\t') = false := rfl
+    simp only [hnone, Bool.false_eq_true, if_false]
+  · rw [parseAfter]
+    have e1 : dropSpaces (' ' :: '#' :: c) = '#' :: c := by simp [dropSpaces, List.dropWhile_cons]
+    have e2 : (List.takeWhile (· == ' ') (' ' :: '#' :: c)).length = 1 := by simp [List.takeWhile_cons]
+    simp only [e1, e2, List.head?_cons, show (some '#' == some '\t') = false by decide, Bool.false_eq_true, if_false,
+      List.isEmpty_cons, beq_self_eq_true, Bool.true_and, Bool.false_or, show (0 < 1) = True by simp, decide_true,
+      Bool.true_or, if_true, gt_iff_lt, Nat.lt_add_one, decide_true]
+
+/-- An empty value (`key:` / `-` with nothing but a comment after it and a following line that is not deeper). -/
+theorem parseAfter_empty (f col : Nat) (ctx : Ctx) (e : Nat) (rest : List Line) (hb : Bound ctx e rest)
+    (T : Str) (hT : TrailOk T) :
+    Parsed (parseAfter (f + 2) T col (pnOf ctx e) (ctx == .seq) (ctx == .map) rest) (.scalar true []) rest := by
+  rw [parseAfter_trail (f + 1) col _ _ _ T hT]
   rw [parseBlock]
   cases hs : skipFill rest with
   | nil => exact ⟨[], rfl, by simp [skipFill, hs]⟩
@@ -2238,18 +2276,19 @@ theorem node_of_empty_flow (x : PNode) (ctx : Ctx) (h : x.bl2 ctx = true) (hi : 
 
 /-- Inline values (scalars, flow collections) after an indicator. -/
 theorem afterL_inline (x : PNode) (ctx : Ctx) (h : x.bl2 ctx = true) (hi : x.isInline2 = true) (e col : Nat) (m : Meta)
-    (ht : m.trail = none) (f : Nat) (rest : List Line) (hf : 2 ≤ f) (hb : Bound ctx e rest) :
+    (ht : trailOk2 m x = true) (f : Nat) (rest : List Line) (hf : 2 ≤ f) (hb : Bound ctx e rest) :
     Parsed (parseAfter f (x.valueR ctx e col m).1 col (pnOf ctx e) (ctx == .seq) (ctx == .map) ((x.valueR ctx e col m).2 ++ rest))
       x.node rest := by
-  rw [valueR_inline x ctx h hi e col m ht]
+  obtain ⟨hT, -, -⟩ := trail_facts m x ht
+  rw [valueR_inline x ctx h hi e col m]
   obtain ⟨f', rfl⟩ : ∃ f', f = f' + 2 := ⟨f - 2, by omega⟩
   by_cases hne : x.flow = []
   · simp only [hne, if_true, List.nil_append]
     rw [node_of_empty_flow x ctx h hi hne]
-    exact parseAfter_empty f' col ctx e rest hb
+    exact parseAfter_empty f' col ctx e rest hb _ hT
   · simp only [hne, if_false, List.nil_append]
-    have := parseAfter_inline2 (f' + 1) m.gap col (pnOf ctx e) (ctx == .seq) (ctx == .map) x.flow x.node rest
-      (inline2_value x ctx h hi hne)
+    have := parseAfter_inline3 (f' + 1) m.gap col (pnOf ctx e) (ctx == .seq) (ctx == .map) x.flow x.node _ hT rest
+      (inline3_value x ctx h hi hne)
     exact ⟨rest, this, rfl⟩
 
 theorem bound_after_items (r : PItems) (hr : r.bl2 = true) (n : Nat) (rest : List Line) (hb : BoundSeq n rest) :
@@ -2319,7 +2358,7 @@ theorem tail_after_entries (m : Meta) (k : Str) (ks : KStyle) (x : PNode) (r : P
 
 mutual
 /-- A layer-2/3 value after its indicator. -/
-theorem afterL : (x : PNode) → ∀ (ctx : Ctx), x.bl2 ctx = true → ∀ (e col : Nat) (m : Meta), m.trail = none →
+theorem afterL : (x : PNode) → ∀ (ctx : Ctx), x.bl2 ctx = true → ∀ (e col : Nat) (m : Meta), trailOk2 m x = true →
     (e < col ∨ ctx = .root) → (ctx = .root → e = 0) → ∀ (f : Nat) (rest : List Line), x.bneed ≤ f → Bound ctx e rest →
     Tail e x.endsKeep rest →
     Parsed (parseAfter f (x.valueR ctx e col m).1 col (pnOf ctx e) (ctx == .seq) (ctx == .map) ((x.valueR ctx e col m).2 ++ rest))
@@ -2339,8 +2378,8 @@ theorem afterL : (x : PNode) → ∀ (ctx : Ctx), x.bl2 ctx = true → ∀ (e co
       have hk : (PNode.str s (.literal ch ind ex)).endsKeep = (ch == .keep) := by cases ch <;> rfl
       rw [hk] at hT
       have := after_literal f' m.gap col (pnOf ctx e) e (ctx == .seq) (ctx == .map) false s ch ind ex hpn
-        (by intro h'; cases h') h.2 rest hT
-      simp only [PNode.valueR, ht, trailText, List.append_nil, PNode.node]
+        (by intro h'; cases h') h.2 rest hT _ (trailOk_trailText m.trail)
+      simp only [PNode.valueR, PNode.node]
       have e1 : (if ctx = Ctx.root then 0 else e + 1) = pnOf ctx e := rfl
       rw [e1]
       exact ⟨rest.dropWhile blankL, this, skipFill_dropBlank rest⟩
@@ -2351,7 +2390,8 @@ theorem afterL : (x : PNode) → ∀ (ctx : Ctx), x.bl2 ctx = true → ∀ (e co
       have hk : (PNode.str s (.folded ch ind ex fo)).endsKeep = (ch == .keep) := by cases ch <;> rfl
       rw [hk] at hT
       have := after_folded f' m.gap col (pnOf ctx e) e (ctx == .seq) (ctx == .map) s ch ind ex fo hpn h.2 rest hT
-      simp only [PNode.valueR, ht, trailText, List.append_nil, PNode.node]
+        _ (trailOk_trailText m.trail)
+      simp only [PNode.valueR, PNode.node]
       have e1 : (if ctx = Ctx.root then 0 else e + 1) = pnOf ctx e := rfl
       rw [e1]
       exact ⟨rest.dropWhile blankL, this, skipFill_dropBlank rest⟩
@@ -2378,8 +2418,8 @@ theorem afterL : (x : PNode) → ∀ (ctx : Ctx), x.bl2 ctx = true → ∀ (e co
       | false =>
         -- entries on the following lines, at indentation k
         have hk : (ctx == .root || decide (1 ≤ st) || (ctx == .map && st == 0)) = true := by simpa using hc
-        simp only [PNode.valueR, Bool.false_eq_true, if_false, ht, trailText, PNode.node]
-        rw [parseAfter_nil]
+        simp only [PNode.valueR, Bool.false_eq_true, if_false, PNode.node]
+        rw [parseAfter_trail _ _ _ _ _ _ (trailOk_trailText m.trail)]
         obtain ⟨hs, _, _⟩ := canon_value x .seq hx (if ctx = .root then 0 else e + st) ((if ctx = .root then 0 else e + st) + 1) m' htr
         simp only [PItems.linesR, hfl, fillLines, List.map_nil, List.nil_append, List.cons_append]
         have hdisp := parseBlock_seq f' (pnOf ctx e) (if ctx = .root then 0 else e + st) (ctx == .map) _
@@ -2460,8 +2500,8 @@ theorem afterL : (x : PNode) → ∀ (ctx : Ctx), x.bl2 ctx = true → ∀ (e co
       cases c with
       | false =>
         have hk : (ctx == .root || decide (1 ≤ st)) = true := by simpa using hc
-        simp only [PNode.valueR, Bool.false_eq_true, if_false, ht, trailText, PNode.node]
-        rw [parseAfter_nil]
+        simp only [PNode.valueR, Bool.false_eq_true, if_false, PNode.node]
+        rw [parseAfter_trail _ _ _ _ _ _ (trailOk_trailText m.trail)]
         obtain ⟨hs, _, _⟩ := canon_value x .map hx (if ctx = .root then 0 else e + st)
           ((if ctx = .root then 0 else e + st) + (keyText k ks).length + 1) m' htr
         simp only [PEntries.linesR, hfl, fillLines, List.map_nil, List.nil_append, List.cons_append]
@@ -2787,7 +2827,7 @@ theorem notMark_keyLine (n : Nat) (k : Str) (ks : KStyle) (h : keyOk false k ks 
   | double sh eu => exact notMark_of_head n '"' _ (by decide) (by decide)
 
 mutual
-theorem nm_value : (x : PNode) → ∀ ctx, x.bl2 ctx = true → ∀ (e col : Nat) (m : Meta), m.trail = none →
+theorem nm_value : (x : PNode) → ∀ ctx, x.bl2 ctx = true → ∀ (e col : Nat) (m : Meta), trailOk2 m x = true →
     ∀ l ∈ (x.valueR ctx e col m).2, l.notMark
   | .seq false st c items, ctx, h, e, col, m, ht => by
     simp only [PNode.bl2, Bool.and_eq_true, Bool.not_eq_true'] at h
@@ -2819,11 +2859,11 @@ theorem nm_value : (x : PNode) → ∀ ctx, x.bl2 ctx = true → ∀ (e col : Na
         have hf : m'.fill = [] := by simp [PEntries.bl2] at hi; exact hi.1.1.1.1
         simp only [PNode.valueR, if_true, PEntries.linesR, hf, fillLines, List.map_nil, List.nil_append] at hc ⊢
         exact fun l hl => hc l (List.mem_cons_of_mem _ hl)
-  | .seq true st c items, ctx, h, e, col, m, ht => by rw [valueR_inline _ ctx h rfl e col m ht]; simp
-  | .map true st c es, ctx, h, e, col, m, ht => by rw [valueR_inline _ ctx h rfl e col m ht]; simp
-  | .null v, ctx, h, e, col, m, ht => by rw [valueR_inline _ ctx h rfl e col m ht]; simp
-  | .bool b v, ctx, h, e, col, m, ht => by rw [valueR_inline _ ctx h rfl e col m ht]; simp
-  | .int i v, ctx, h, e, col, m, ht => by rw [valueR_inline _ ctx h rfl e col m ht]; simp
+  | .seq true st c items, ctx, h, e, col, m, ht => by rw [valueR_inline _ ctx h rfl e col m]; simp
+  | .map true st c es, ctx, h, e, col, m, ht => by rw [valueR_inline _ ctx h rfl e col m]; simp
+  | .null v, ctx, h, e, col, m, ht => by rw [valueR_inline _ ctx h rfl e col m]; simp
+  | .bool b v, ctx, h, e, col, m, ht => by rw [valueR_inline _ ctx h rfl e col m]; simp
+  | .int i v, ctx, h, e, col, m, ht => by rw [valueR_inline _ ctx h rfl e col m]; simp
   | .str s st, ctx, h, e, col, m, ht => by
     cases st
     case literal ch ind ex =>
@@ -2844,7 +2884,7 @@ theorem nm_value : (x : PNode) → ∀ ctx, x.bl2 ctx = true → ∀ (e col : Na
       intro l hl
       exact bsLines_notMark _ (by omega) _
         (fun l hl => bodyOk_of_headOk l (folded_lines_ok fo ch s hch hlines hsp hhead hf l hl).1) l hl
-    all_goals (rw [valueR_inline _ ctx h rfl e col m ht]; simp)
+    all_goals (rw [valueR_inline _ ctx h rfl e col m]; simp)
   | .anchored a n, ctx, h, _, _, _, _ => by simp [PNode.bl2, PNode.sc2] at h
   | .alias a t, ctx, h, _, _, _, _ => by simp [PNode.bl2, PNode.sc2] at h
 theorem nm_items : (items : PItems) → items.bl2 = true → ∀ n, ∀ l ∈ items.linesR n, l.notMark
@@ -2932,8 +2972,8 @@ theorem chars_bare (x : PNode) (g : Nat) (h : x.bl2 .root = true) : (bareStream 
       cases x <;> simp [PNode.isInline2, PNode.isBlockColl] at hi ⊢
       all_goals (rename_i fl _ _ _; cases fl <;> simp_all [PNode.isInline2, PNode.isBlockColl])
     have hne := flow_ne_nil_root x h hi
-    rw [valueR_inline x .root h hi 0 0 { gap := g } rfl]
-    simp only [hb, Bool.false_eq_true, if_false, hne, docLines, hi, if_true, joinRaw, List.flatMap_cons,
+    rw [valueR_inline x .root h hi 0 0 { gap := g }]
+    simp only [trailText, List.append_nil, hb, Bool.false_eq_true, if_false, hne, docLines, hi, if_true, joinRaw, List.flatMap_cons,
       List.flatMap_nil, List.append_nil, Line.raw, spaces, List.replicate_zero, List.nil_append]
     obtain ⟨⟨c, r, hx, hsp, _⟩, _⟩ := inline2_value x .root h hi hne
     rw [hx]
